@@ -24,10 +24,11 @@ CLAIMS = {
             TRUST + "effect obligations (T-EFFECT) are bounded only in this round; flush() raising is a recorded known finding (carve-out)."),
     "C04": ("proof", "6.C04",
             "get_type and get_dict_type: mem(obj, result) for every finite acyclic value and every size limit, with termination (decreases size(obj)); "
-            "shrink_types: every input type is a subtype (for all values) of the result, for every list of well-formed types; "
-            "RewriteAnonymousTypedDictToDict widening. Order/multiplicity independence and shrink_typed_dict_types are decided by the bounded tier "
+            "shrink_types and shrink_typed_dict_types (four loop invariants over the required / optional bookkeeping, both the merged-TypedDict and the oversize Dict[str, V] path): "
+            "every input type is a subtype (for all values) of the result, for every list of well-formed types; make_typed_dict / field_annotations / is_anonymous_typed_dict against the raw "
+            "nested-TypedDict encoding; RewriteAnonymousTypedDictToDict widening; shrink_traced_types. Order/multiplicity independence is decided by the bounded tier "
             "(all permutations / duplications of small multisets of inferred types).",
-            TRUST + "shrink_typed_dict_types is under an assumed contract at L1 (bounded stand-in: runtime/props/c04.py); T-VALUES / T-TYPES axioms."),
+            TRUST + "T-VALUES / T-TYPES axioms (validated against the real typing module by the bounded tier); order independence bounded."),
     "C07": ("proof", "6.C07",
             "Every shipped rewriter method (generic traversal with its 'rewrite_' + name dispatch rebuilt from the AST, RemoveEmptyContainers, RewriteConfigDict, "
             "RewriteLargeUnion, RewriteAnonymousTypedDictToDict, RewriteGenerator, NoOp, Chained) is proved to raise nothing, to terminate (decreases depth) and to widen "
@@ -67,11 +68,16 @@ CLAIMS = {
 }
 
 CLAIMS["C08"] = ("proof", "6.C08",
-    "Decode side: type_from_dict / typed_dict_from_dict / type_from_json / arg_types_from_json / maybe_decode_type / CallTraceRow.to_trace / get_func_in_module / get_name_in_module "
-    "are proved to terminate on encoder-produced JSON, to raise MonkeyTypeError only, and to keep an absent return / yield absent (None <-> None, 'null'). "
-    "The round-trip equation DEC(ENC(t)) structurally equal to t and 'encoding is a function of structure' are decided by the bounded tier (all inferred types for all k, "
-    "rewritten forms, traces over every function kind of a generated package).",
-    TRUST + "the round-trip lemma itself is bounded in this round (type_to_dict is not under an L1 contract); T-IMPORT / T-JSON assumed.")
+    "Round trip proved from the contracts of the real functions: type_to_dict / typed_dict_to_dict ensure encodes(result, typ) - the wire-format relation, written from the format description, "
+    "unfolded only where a clause asks (opaque / reveal) - for every structurally well-formed type of any depth (termination by nesting depth); type_from_dict / typed_dict_from_dict ensure, for every "
+    "importable type t that d encodes, a structurally equal result (teq, least congruence) and raise MonkeyTypeError only for what is not such a wire form; the JSON layer, maybe_encode / maybe_decode "
+    "(absent stays absent, 'null' never produced for a present type), get_name_in_module (= the lookup function of the environment, loop invariant over the dotted path), get_func_in_module "
+    "(method / read-only property / cached_property unwrapping), CallTraceRow.from_trace / to_trace; two lemmas stated in the sidecar and verified like bodies: "
+    "type_from_json(type_to_json(t)) is teq to t, and from_trace(tr).to_trace() has the same function, teq argument / return / yield types, absent staying absent, neither raising. "
+    "Bounded companion: the same round trips on all inferred types / rewritten forms / generated-package traces, the concrete twin of `encodes`, every T-ENC axiom evaluated on the real typing / "
+    "mypy_extensions / json (a failing axiom is a checker defect), 'encoding is a function of structure' (two separately built equal types give the same JSON).",
+    TRUST + "T-ENC (raw TypedDict layer, typing internals `_name`, t == ctor[args], json loads/dumps up to key order, `encodes` invariant under key order) assumed and validated by the bounded tier; "
+    "importability is the hypothesis the property itself makes; 'function of structure' is bounded only.")
 
 CLAIMS["C05"] = ("exploration", "6.C05",
     "Bounded: lock-step tightness walk of the inferred (merged) type against the multiset of values it was inferred from (every union alternative, exact class, Any, "
